@@ -3,5 +3,6 @@
 # then pre-build the harnesses against /repo's working tree (the checks rebuild them when /repo changes).
 set -e
 cd "$(dirname "$0")"
+python3 -m vlib.regen
 (cd lean && lake build 2>&1 | tail -5)
 python3 -m vlib.prebuild
